@@ -39,7 +39,8 @@ OptFields(o) ==
 
 -----------------------------------------------------------------------------
 (* listener part *)
-HostCfgs == {"one", "oneport", "two", "badport", "v6"}      \* ["a.example"], ["a.example:8080"], ["a.example","b.example:9090"], ["a.example:xyz"], ["::1"]
+HostCfgs == {"one", "oneport", "two", "portfirst", "three", "badport", "v6"}
+   \* ["a.example"], ["a.example:8080"], ["a.example","b.example:9090"], ["a.example:8443","b.example"], ["a.example","b.example:9090","c.example"], ["a.example:xyz"], ["::1"]
 PortConns == {"", "8443", "abc"}
 WHs == {"", "8:00-17:00", "0:00-24:00", "9:30-9:60", "18:05-23:59", "17:00-8:00", "9:00-9:00", "25:00-26:00", "8:00", "08:00-17:30", "8:0-17:00"}
       \* the accepted grammar is H:MM-H:MM with hours written without a leading zero; "08:00-17:30" and "8:0-17:00" are outside it
@@ -60,6 +61,8 @@ WHValue(w) == CASE w = "" -> 0
 HostList(l) == CASE l.hosts = "one" -> <<<<"a.example", -1>>>>
                  [] l.hosts = "oneport" -> <<<<"a.example", 8080>>>>
                  [] l.hosts = "two" -> <<<<"a.example", -1>>, <<"b.example", 9090>>>>
+                 [] l.hosts = "portfirst" -> <<<<"a.example", 8443>>, <<"b.example", -1>>>>
+                 [] l.hosts = "three" -> <<<<"a.example", -1>>, <<"b.example", 9090>>, <<"c.example", -1>>>>
                  [] OTHER -> <<>>
 DefaultPort(l) == IF l.portconn = "8443" THEN 8443 ELSE 4443      \* PortConn when given, else the bind port (4443 in the harness)
 
